@@ -243,6 +243,13 @@ func (ss *SourceConf) applyAux(aux *auxSourceConf) (err error) {
 	}
 	ss.Include = patterns[0:len(aux.Include)]
 	ss.Ignore = patterns[len(aux.Include):]
+	// An omitted list has to stay nil (not empty) or it will not be inherited
+	if len(ss.Include) == 0 {
+		ss.Include = nil
+	}
+	if len(ss.Ignore) == 0 {
+		ss.Ignore = nil
+	}
 	if aux.ErrorBackoff != "" {
 		ss.ErrorBackoff, err = strconv.ParseFloat(aux.ErrorBackoff, 64)
 		ss.isErrorBackoffSet = true
